@@ -28,10 +28,11 @@ type nmScenario struct {
 	Disabled bool   // monitoring not configured
 	AcceptTO bool   // short accept timeout configured
 	Prompt   bool   // the Accept is handled before the opening call returns
+	Stranger bool   // another peer opens a channel towards this node that carries the same transfer id
 }
 
 func (s nmScenario) String() string {
-	return fmt.Sprintf("pull=%v max=%d trigger=%s fail=%s accept=%v disabled=%v accept-timeout=%v prompt-accept=%v", s.Pull, s.Max, s.Trigger, s.Fail, s.Accept, s.Disabled, s.AcceptTO, s.Prompt)
+	return fmt.Sprintf("pull=%v max=%d trigger=%s fail=%s accept=%v disabled=%v accept-timeout=%v prompt-accept=%v colliding-stranger=%v", s.Pull, s.Max, s.Trigger, s.Fail, s.Accept, s.Disabled, s.AcceptTO, s.Prompt, s.Stranger)
 }
 
 func runNodeMonitor(dir string, seed uint64, tier string) {
@@ -49,6 +50,11 @@ func runNodeMonitor(dir string, seed uint64, tier string) {
 		scs = append(scs, nmScenario{Pull: pull, Max: 2, Trigger: "", Accept: false, AcceptTO: true})
 		scs = append(scs, nmScenario{Pull: pull, Max: 2, Trigger: "", Accept: true, AcceptTO: true})
 		scs = append(scs, nmScenario{Pull: pull, Max: 2, Trigger: "", Accept: true, AcceptTO: true, Prompt: true})
+		// transfer ids are chosen by each channel's initiator: a stranger's channel towards this node may carry the
+		// id of a channel this node opened; nothing that happens on it concerns the monitor of ours
+		scs = append(scs, nmScenario{Pull: pull, Max: 2, Trigger: "", Accept: false, AcceptTO: true, Stranger: true})
+		scs = append(scs, nmScenario{Pull: pull, Max: 2, Trigger: "senderr", Fail: "none", Accept: true, Stranger: true})
+		scs = append(scs, nmScenario{Pull: pull, Max: 2, Trigger: "recverr", Fail: "none", Accept: true, Stranger: true})
 	}
 	id := 0
 	for _, sc := range scs {
@@ -142,6 +148,45 @@ func runNodeMonitorCase(res *suiteResult, id int, label string, sc nmScenario) {
 	if sc.Accept && !sc.Prompt {
 		r.exec(sMResp(2, respOf(mtNew, k.Tid, true, false)), 1)
 	}
+	strangerK := chidTok{3, 1, k.Tid}
+	fail5 := func(sig, what string, obs, exp interface{}) {
+		fail(sig, what, obs, exp)
+		res.fail(monitorFailure{Property: "C05", CaseID: id, Signature: sig, What: what, Input: label, Observed: obs, Expected: exp})
+	}
+	if sc.Stranger {
+		// peer 3 opens a channel towards us with the transfer id of our channel; it is accepted and starts moving
+		acc := valSpec{Accepted: true}
+		r.exec(sMReq(3, newReq(k.Tid, !sc.Pull), acc), 1)
+		r.exec(sK("tinitiated", strangerK), 1)
+		if _, err := r.mgr.ChannelState(ctx, r.chidReal(strangerK)); err != nil {
+			fail("integrated-stranger-setup", "the colliding channel of the other peer could not be opened", err.Error(), nil)
+			return
+		}
+	}
+	if sc.Stranger && !sc.AcceptTO {
+		base, _, opens0, _ := count()
+		kind := "tsenderr"
+		if sc.Trigger == "recverr" {
+			kind = "trecverr"
+		}
+		// an error on the stranger's channel: restarting that channel is its initiator's business, and it is
+		// certainly no reason to reconnect to our counterparty or to restart / close our channel
+		r.mu.Lock()
+		r.connects = 0
+		r.mu.Unlock()
+		r.exec(sK(kind, strangerK), 1)
+		time.Sleep(40 * time.Millisecond)
+		r.quiesce()
+		rm, cc, op, errs := count()
+		r.mu.Lock()
+		conn := r.connects
+		r.mu.Unlock()
+		if rm != base || op != opens0 || conn != 0 || cc != 0 || errs != 0 || isTerminal(statusOf()) {
+			fail5("integrated-other-channels-error-hits-ours", "a transport error on another peer's channel that shares our channel's transfer id made the monitor reconnect, restart or close our channel",
+				fmt.Sprintf("restart-msgs=%d opens=%d connects=%d cancels=%d errors=%d status=%s", rm-base, op-opens0, conn, cc, errs, statusName(statusOf())), "nothing")
+		}
+		return
+	}
 	if sc.AcceptTO {
 		time.Sleep(400 * time.Millisecond)
 		r.quiesce()
@@ -150,6 +195,10 @@ func runNodeMonitorCase(res *suiteResult, id int, label string, sc nmScenario) {
 		if !sc.Accept {
 			if !waitUntil(func() bool { return statusOf() == datatransfer.Failed }, 3*time.Second) {
 				fail("integrated-accept-timeout-not-closed", "no Accept arrived within the accept timeout but the channel was not closed with an error", statusName(statusOf()), "Failed")
+				if sc.Stranger {
+					res.fail(monitorFailure{Property: "C05", CaseID: id, Signature: "integrated-other-channels-accept-hits-ours", Input: label,
+						What: "the acceptance of another peer's channel that shares our channel's transfer id stopped the accept timeout of our channel"})
+				}
 			}
 		} else if st == datatransfer.Failed || st == datatransfer.Failing || errs > 0 {
 			fail("integrated-accept-timeout-spurious", "the accept timeout closed a channel whose Accept had arrived", statusName(st), "not Failed")
